@@ -448,6 +448,16 @@ class IfgModel:
         eps = self._rt() * max(float(a.max()), thr)
         must_go = v0 & (a > thr + eps)
         must_stay = v0 & (a < thr - eps)
+        if self.ifg.data.dtype == np.float32 and 0 < float(a.max()) < 1e-17:
+            # single-precision heights of order 1e-18 or less (rounding residue of an all-zero map after fill / remove_*): their squares
+            # are below the smallest float32, so no float32 standard deviation exists for them; nothing is asserted about which samples go
+            # (found by a background sweep: f4 map, fill(0), remove_piston -> data ~1e-32, float32 std = 0)
+            ctx.call(self.ifg.spike_clip, *args)
+            v1 = np.isfinite(self.ifg.data)
+            ctx.require(not (v1 & ~v0).any(), 'spike_clip:revived', '%d invalid samples became valid' % int((v1 & ~v0).sum()))
+            ctx.label('spike_clip:float32-underflow-scale(not asserted)')
+            self.valid = v0 & v1
+            return
         ctx.call(self.ifg.spike_clip, *args)
         U.check_shape(self.ifg.data, v0.shape, 'spike_clip', 'data')
         v1 = np.isfinite(self.ifg.data)
